@@ -235,6 +235,8 @@ pub struct TKnobs {
     pub time_threshold_x8: u32,
     pub persistent_congestion_threshold: u32,
     pub crypto_buffer: usize,
+    /// harness congestion controller: Some((base window, oscillate))
+    pub harness_cc: Option<(u64, bool)>,
 }
 
 impl Default for TKnobs {
@@ -264,6 +266,7 @@ impl Default for TKnobs {
             time_threshold_x8: 9,
             persistent_congestion_threshold: 3,
             crypto_buffer: 16 * 1024,
+            harness_cc: None,
         }
     }
 }
@@ -284,8 +287,7 @@ impl TKnobs {
         k.fairness = !ch.chance("knob.unfair", 1, 4);
         k.gso = !ch.chance("knob.gso_off", 1, 4);
         k.cc = ch.choose("knob.cc", 3) as u8;
-        // pad_to_mtu is drawn only by families that opt in (see DESIGN §7, finding D5)
-        k.pad_to_mtu = false;
+        k.pad_to_mtu = ch.chance("knob.pad", 1, 8);
         k.initial_rtt_ms = *ch.pick("knob.initial_rtt", &[333u64, 10, 50, 100, 1000]);
         k.packet_threshold = *ch.pick("knob.pkt_thresh", &[3u32, 3, 4, 10]);
         k.pacing_cap = *ch.pick("knob.pacing", &[None, None, None, Some(50_000u64), Some(1_000_000)]);
@@ -313,6 +315,17 @@ impl TKnobs {
         }
         t.send_fairness(self.fairness);
         t.enable_segmentation_offload(self.gso);
+        if let Some((base, osc)) = self.harness_cc {
+            t.congestion_controller_factory(Arc::new(HarnessCcFactory { base, oscillate: osc, log: None }));
+        } else {
+            self.build_cc(&mut t);
+        }
+        t.pad_to_mtu(self.pad_to_mtu);
+        self.build_rest(&mut t);
+        t
+    }
+
+    fn build_cc(&self, t: &mut TransportConfig) {
         match self.cc {
             1 => {
                 t.congestion_controller_factory(Arc::new(quinn_proto::congestion::NewRenoConfig::default()));
@@ -322,7 +335,9 @@ impl TKnobs {
             }
             _ => {}
         }
-        t.pad_to_mtu(self.pad_to_mtu);
+    }
+
+    fn build_rest(&self, t: &mut TransportConfig) {
         t.max_idle_timeout(self.idle_ms.map(|ms| VarInt::from_u64(ms).unwrap().into()));
         t.keep_alive_interval(self.keep_alive_ms.map(Duration::from_millis));
         t.datagram_receive_buffer_size(self.dgram_recv_buf);
@@ -333,6 +348,102 @@ impl TKnobs {
         t.time_threshold(self.time_threshold_x8 as f32 / 8.0);
         t.persistent_congestion_threshold(self.persistent_congestion_threshold);
         t.crypto_buffer_size(self.crypto_buffer);
-        t
+    }
+}
+
+// ------------------------------------------------------------------------------------------
+// Harness congestion controller (public `congestion::Controller` trait): dictates window()
+// and records every callback.
+// ------------------------------------------------------------------------------------------
+
+#[derive(Clone, Debug)]
+pub enum CcCall {
+    Sent { bytes: u64, pn: u64 },
+    Ack { bytes: u64, app_limited: bool },
+    EndAcks { in_flight: u64, app_limited: bool },
+    Congestion { persistent: bool, ecn: bool, lost_bytes: u64 },
+    Spurious,
+    Mtu(u16),
+}
+
+#[derive(Default, Debug)]
+pub struct CcLog {
+    pub calls: Vec<CcCall>,
+}
+
+pub struct HarnessCcFactory {
+    pub base: u64,
+    pub oscillate: bool,
+    pub log: Option<Arc<Mutex<CcLog>>>,
+}
+
+impl quinn_proto::congestion::ControllerFactory for HarnessCcFactory {
+    fn build(self: Arc<Self>, _now: std::time::Instant, current_mtu: u16) -> Box<dyn quinn_proto::congestion::Controller> {
+        Box::new(HarnessCc { base: self.base, oscillate: self.oscillate, mtu: current_mtu, n: 0, log: self.log.clone() })
+    }
+}
+
+#[derive(Clone)]
+pub struct HarnessCc {
+    base: u64,
+    oscillate: bool,
+    mtu: u16,
+    n: u64,
+    log: Option<Arc<Mutex<CcLog>>>,
+}
+
+impl HarnessCc {
+    fn rec(&mut self, c: CcCall) {
+        self.n += 1;
+        if let Some(l) = &self.log {
+            l.lock().unwrap().calls.push(c);
+        }
+    }
+}
+
+impl quinn_proto::congestion::Controller for HarnessCc {
+    fn on_sent(&mut self, _now: std::time::Instant, bytes: u64, pn: u64) {
+        self.rec(CcCall::Sent { bytes, pn });
+    }
+    fn on_ack(&mut self, _now: std::time::Instant, _sent: std::time::Instant, bytes: u64, app_limited: bool, _rtt: &quinn_proto::RttEstimator) {
+        self.rec(CcCall::Ack { bytes, app_limited });
+    }
+    fn on_end_acks(&mut self, _now: std::time::Instant, in_flight: u64, app_limited: bool, _l: Option<u64>) {
+        self.rec(CcCall::EndAcks { in_flight, app_limited });
+    }
+    fn on_congestion_event(&mut self, _now: std::time::Instant, _sent: std::time::Instant, persistent: bool, ecn: bool, lost_bytes: u64) {
+        self.rec(CcCall::Congestion { persistent, ecn, lost_bytes });
+    }
+    fn on_spurious_congestion_event(&mut self) {
+        self.rec(CcCall::Spurious);
+    }
+    fn on_mtu_update(&mut self, new_mtu: u16) {
+        self.mtu = new_mtu;
+        self.rec(CcCall::Mtu(new_mtu));
+    }
+    fn window(&self) -> u64 {
+        // never below two datagrams of the current MTU (what the property demands of the
+        // built-in controllers); oscillation is driven by the number of callbacks seen so far
+        let floor = 2 * self.mtu as u64;
+        let w = if self.oscillate {
+            match (self.n / 7) % 4 {
+                0 => self.base,
+                1 => self.base * 8,
+                2 => floor,
+                _ => self.base * 2,
+            }
+        } else {
+            self.base
+        };
+        w.max(floor)
+    }
+    fn clone_box(&self) -> Box<dyn quinn_proto::congestion::Controller> {
+        Box::new(self.clone())
+    }
+    fn initial_window(&self) -> u64 {
+        self.base.max(2 * self.mtu as u64)
+    }
+    fn into_any(self: Box<Self>) -> Box<dyn std::any::Any> {
+        self
     }
 }
